@@ -8,6 +8,8 @@ mod v_iface_frag_tx {
     use super::*;
     use crate::iface::SocketStorage;
     use crate::phy::Checksum;
+    use crate::socket::raw as sraw;
+    use crate::socket::udp as sudp;
     use crate::verif_common::*;
     use crate::verif_dev::{CapDev, CapTx, NullDev, TxState};
 
@@ -184,19 +186,368 @@ mod v_iface_frag_tx {
         kani::cover!(got != 0 && k + 1 == iplen && k >= p0, "last byte of the datagram carried by a later fragment");
     }
 
-    // Grid: max fragment payload is 24 (MTU 44), 32 (MTU 52), 48 (MTU 68 and the unaligned MTU 70).
-    // IP payload = 8 (UDP header) + application bytes.
+    // Grid: max fragment payload is 24 (MTU 44), 32 (MTU 52), 48 (MTU 68 and the unaligned MTU 70), 80 (MTU 100).
+    // IP payload = 8 (UDP header) + application bytes.  Fragment payload lengths are given in `bounds=`.
 
-    // @harness props=C12 cfg=KI4 tier=q to=600 mem=6 unwind=12 opts=nomem covers=2 funcs=InterfaceInner::dispatch_ip;InterfaceInner::dispatch_ipv4_frag;DeviceCapabilities::max_ipv4_fragment_size;Fragmenter::finished bounds=MTU_44;_UDP_payload_17_(fragments_24+1);_symbolic_payload_ports_ttl;_Medium::Ip
+    // @harness props=C12 cfg=KI4 tier=q to=600 mem=6 unwind=12 opts=nomem covers=2 funcs=InterfaceInner::dispatch_ip;InterfaceInner::dispatch_ipv4_frag;DeviceCapabilities::max_ipv4_fragment_size;Fragmenter::finished bounds=MTU_44;_UDP_payload_17;_fragment_payloads_24+1;_symbolic_payload_ports_ttl;_Medium::Ip
     #[kani::proof]
     pub(crate) fn ipv4_frag_tx_44_17() {
         frag_tx::<44, 17, 2, 48, 48>(ChecksumCapabilities::ignored(), false);
     }
 
-    // @harness props=C12 cfg=KI4 tier=q to=600 mem=6 unwind=12 opts=nomem covers=2 funcs=InterfaceInner::dispatch_ip;InterfaceInner::dispatch_ipv4_frag;DeviceCapabilities::max_ipv4_fragment_size;Fragmenter::finished bounds=MTU_44;_UDP_payload_41_(fragments_24+24+1);_symbolic_payload_ports_ttl;_Medium::Ip
+    // @harness props=C12 cfg=KI4 tier=q to=600 mem=6 unwind=12 opts=nomem covers=2 funcs=InterfaceInner::dispatch_ip;InterfaceInner::dispatch_ipv4_frag;DeviceCapabilities::max_ipv4_fragment_size;Fragmenter::finished bounds=MTU_44;_UDP_payload_40;_fragment_payloads_24+24;_symbolic_payload_ports_ttl;_Medium::Ip
+    #[kani::proof]
+    pub(crate) fn ipv4_frag_tx_44_40() {
+        frag_tx::<44, 40, 2, 48, 72>(ChecksumCapabilities::ignored(), false);
+    }
+
+    // @harness props=C12 cfg=KI4 tier=q to=600 mem=6 unwind=12 opts=nomem covers=2 funcs=InterfaceInner::dispatch_ip;InterfaceInner::dispatch_ipv4_frag;DeviceCapabilities::max_ipv4_fragment_size;Fragmenter::finished bounds=MTU_44;_UDP_payload_41;_fragment_payloads_24+24+1;_symbolic_payload_ports_ttl;_Medium::Ip
     #[kani::proof]
     pub(crate) fn ipv4_frag_tx_44_41() {
         frag_tx::<44, 41, 3, 48, 72>(ChecksumCapabilities::ignored(), false);
+    }
+
+    // @harness props=C12 cfg=KI4 tier=q to=600 mem=6 unwind=12 opts=nomem covers=2 funcs=InterfaceInner::dispatch_ip;InterfaceInner::dispatch_ipv4_frag;DeviceCapabilities::max_ipv4_fragment_size;Fragmenter::finished bounds=MTU_44;_UDP_payload_63;_fragment_payloads_24+24+23;_symbolic_payload_ports_ttl;_Medium::Ip
+    #[kani::proof]
+    pub(crate) fn ipv4_frag_tx_44_63() {
+        frag_tx::<44, 63, 3, 48, 96>(ChecksumCapabilities::ignored(), false);
+    }
+
+    // @harness props=C12 cfg=KI4 tier=q to=600 mem=6 unwind=12 opts=nomem covers=2 funcs=InterfaceInner::dispatch_ip;InterfaceInner::dispatch_ipv4_frag;DeviceCapabilities::max_ipv4_fragment_size;Fragmenter::finished bounds=MTU_44;_UDP_payload_88;_fragment_payloads_24+24+24+24;_symbolic_payload_ports_ttl;_Medium::Ip
+    #[kani::proof]
+    pub(crate) fn ipv4_frag_tx_44_88() {
+        frag_tx::<44, 88, 4, 48, 120>(ChecksumCapabilities::ignored(), false);
+    }
+
+    // @harness props=C12 cfg=KI4 tier=q to=600 mem=6 unwind=12 opts=nomem covers=2 funcs=InterfaceInner::dispatch_ip;InterfaceInner::dispatch_ipv4_frag;DeviceCapabilities::max_ipv4_fragment_size;Fragmenter::finished bounds=MTU_52;_UDP_payload_60;_fragment_payloads_32+32+4;_symbolic_payload_ports_ttl;_Medium::Ip
+    #[kani::proof]
+    pub(crate) fn ipv4_frag_tx_52_60() {
+        frag_tx::<52, 60, 3, 56, 88>(ChecksumCapabilities::ignored(), false);
+    }
+
+    // @harness props=C12 cfg=KI4 tier=q to=600 mem=6 unwind=12 opts=nomem covers=2 funcs=InterfaceInner::dispatch_ip;InterfaceInner::dispatch_ipv4_frag;DeviceCapabilities::max_ipv4_fragment_size;Fragmenter::finished bounds=MTU_68;_UDP_payload_89;_fragment_payloads_48+48+1;_symbolic_payload_ports_ttl;_Medium::Ip
+    #[kani::proof]
+    pub(crate) fn ipv4_frag_tx_68_89() {
+        frag_tx::<68, 89, 3, 72, 120>(ChecksumCapabilities::ignored(), false);
+    }
+
+    // @harness props=C12 cfg=KI4 tier=q to=600 mem=6 unwind=12 opts=nomem covers=2 funcs=InterfaceInner::dispatch_ip;InterfaceInner::dispatch_ipv4_frag;DeviceCapabilities::max_ipv4_fragment_size;Fragmenter::finished bounds=MTU_68;_UDP_payload_136;_fragment_payloads_48+48+48;_symbolic_payload_ports_ttl;_Medium::Ip
+    #[kani::proof]
+    pub(crate) fn ipv4_frag_tx_68_136() {
+        frag_tx::<68, 136, 3, 72, 168>(ChecksumCapabilities::ignored(), false);
+    }
+
+    // @harness props=C12 cfg=KI4 tier=q to=600 mem=6 unwind=12 opts=nomem covers=2 funcs=InterfaceInner::dispatch_ip;InterfaceInner::dispatch_ipv4_frag;DeviceCapabilities::max_ipv4_fragment_size;Fragmenter::finished bounds=MTU_70;_UDP_payload_100;_fragment_payloads_48+48+12_(MTU_not_8-aligned:_frames_<=_68);_symbolic_payload_ports_ttl;_Medium::Ip
+    #[kani::proof]
+    pub(crate) fn ipv4_frag_tx_70_100() {
+        frag_tx::<70, 100, 3, 72, 128>(ChecksumCapabilities::ignored(), false);
+    }
+
+    // @harness props=C12 cfg=KI4 tier=q to=900 mem=6 unwind=12 opts=nomem covers=2 funcs=InterfaceInner::dispatch_ip;InterfaceInner::dispatch_ipv4_frag;DeviceCapabilities::max_ipv4_fragment_size;Fragmenter::finished bounds=MTU_100;_UDP_payload_228;_fragment_payloads_80+80+76_(datagram_fills_the_256-byte_fragmentation_buffer_exactly);_symbolic_payload_ports_ttl;_Medium::Ip
+    #[kani::proof]
+    pub(crate) fn ipv4_frag_tx_100_228() {
+        frag_tx::<100, 228, 3, 104, 256>(ChecksumCapabilities::ignored(), false);
+    }
+
+    // @harness props=C12 cfg=KI4 tier=q to=600 mem=6 unwind=12 opts=nomem covers=2 funcs=InterfaceInner::dispatch_ip;InterfaceInner::dispatch_ipv4_frag;DeviceCapabilities::max_ipv4_fragment_size;Fragmenter::finished bounds=MTU_44;_raw_payload_49;_fragment_payloads_24+24+1;_raw_IP_payload_protocol_253;_symbolic_payload_ports_ttl;_Medium::Ip
+    #[kani::proof]
+    pub(crate) fn ipv4_frag_tx_raw_44_49() {
+        frag_tx::<44, 49, 3, 48, 72>(ChecksumCapabilities::ignored(), true);
+    }
+
+    // @harness props=C12 cfg=KI4 tier=q to=900 mem=6 unwind=12 opts=nomem covers=2 funcs=InterfaceInner::dispatch_ip;InterfaceInner::dispatch_ipv4_frag;DeviceCapabilities::max_ipv4_fragment_size;Fragmenter::finished bounds=MTU_44;_UDP_payload_17;_fragment_payloads_24+1;_all_checksums_computed_and_the_IPv4_header_checksum_verified_per_fragment;_symbolic_payload_ports_ttl;_Medium::Ip
+    #[kani::proof]
+    pub(crate) fn ipv4_frag_tx_cksum_44_17() {
+        frag_tx::<44, 17, 2, 48, 48>(ChecksumCapabilities::default(), false);
+    }
+
+    // ------------------------------------------------------------------ larger than the fragmentation buffer
+    // @harness props=C12 cfg=KI4 tier=q to=600 mem=6 unwind=12 opts=nomem covers=1 funcs=InterfaceInner::dispatch_ip bounds=MTU_100;_UDP_payload_229_(datagram_one_byte_larger_than_the_256-byte_fragmentation_buffer)
+    #[kani::proof]
+    pub(crate) fn ipv4_frag_tx_too_big() {
+        ip_iface!(dev, iface, 100, ChecksumCapabilities::ignored());
+        let payload: [u8; 229] = kani::any();
+        let udp = UdpRepr { src_port: kani::any(), dst_port: kani::any() };
+        let ip = Ipv4Repr { src_addr: LOCAL, dst_addr: REMOTE, next_header: IpProtocol::Udp, payload_len: 8 + 229, hop_limit: 64 };
+        let mut s0 = TxState::<104>::new();
+        let pkt = Packet::new_ipv4(ip, IpPayload::Udp(udp, &payload[..]));
+        let r = iface.inner.dispatch_ip(CapTx { st: &mut s0 }, PacketMeta::default(), pkt, &mut iface.fragmenter);
+        // dropped as a whole: nothing on the wire, nothing left half-sent
+        assert!(s0.frames == 0, "prop:c12_tx_oversize_never_truncated");
+        assert!(iface.fragmenter.finished() && iface.fragmenter.is_empty(), "prop:c12_tx_oversize_leaves_fragmenter_idle");
+        kani::cover!(r.is_ok(), "datagram beyond the fragmentation buffer dropped");
+    }
+
+    // ------------------------------------------------------------------ back-to-back datagrams
+    // D1 = UDP 1000 -> 2000 with 41 symbolic bytes: IP payload 49 = fragments 24 + 24 + 1 at MTU 44.
+    // D2 = UDP 1001 -> 2001 with 17 symbolic bytes: IP payload 25 = fragments 24 + 1.
+    const D1L: usize = 41;
+    const D2L: usize = 17;
+
+    /// `b[..len]` is fragment `idx` (1 or 2, counted from 0) of D1, byte for byte
+    fn is_d1_frag(b: &[u8], len: usize, idx: usize, ident: u16, d1: &[u8; D1L], k: usize) -> bool {
+        let h = hdr(&b[..IPH]);
+        let common = h.vihl == 0x45 && h.total == len && h.ident == ident && !h.df && h.proto == 17
+            && h.src == LOCAL.octets() && h.dst == REMOTE.octets();
+        if idx == 1 {
+            // payload bytes 24..48 of the datagram = application bytes 16..40
+            common && len == 44 && h.mf && h.off == 24 && b[IPH + (k % 24)] == d1[16 + (k % 24)]
+        } else {
+            common && len == 21 && !h.mf && h.off == 48 && b[IPH] == d1[40]
+        }
+    }
+
+    /// `b[..len]` is fragment `idx` (0 or 1) of D2
+    fn is_d2_frag(b: &[u8], len: usize, idx: usize, not_ident: u16, d2: &[u8; D2L], k: usize) -> bool {
+        let h = hdr(&b[..IPH]);
+        let common = h.vihl == 0x45 && h.total == len && h.ident != not_ident && !h.df && h.proto == 17
+            && h.src == LOCAL.octets() && h.dst == REMOTE.octets();
+        if idx == 0 {
+            let j = k % 16;
+            common && len == 44 && h.mf && h.off == 0 && b[IPH + 8 + j] == d2[j]
+                && b[IPH] == (1001u16 >> 8) as u8 && b[IPH + 1] == 1001u16 as u8 && b[IPH + 5] == (8 + D2L) as u8
+        } else {
+            common && len == 21 && !h.mf && h.off == 24 && b[IPH] == d2[16]
+        }
+    }
+
+    fn d1_packet<'a>(d1: &'a [u8; D1L]) -> Packet<'a> {
+        let ip = Ipv4Repr { src_addr: LOCAL, dst_addr: REMOTE, next_header: IpProtocol::Udp, payload_len: 8 + D1L, hop_limit: 64 };
+        Packet::new_ipv4(ip, IpPayload::Udp(UdpRepr { src_port: 1000, dst_port: 2000 }, &d1[..]))
+    }
+
+    fn dump_frame(tag: &str, frames: usize, which: usize, b: &[u8], len: usize) {
+        if frames > which {
+            let h = hdr(&b[..IPH]);
+            crate::vdump!("{}: len={} ident={} mf={} off={} payload={:?}", tag, len, h.ident, h.mf, h.off, &b[IPH..len]);
+        } else {
+            crate::vdump!("{}: -", tag);
+        }
+    }
+
+    // (a) a second oversized datagram handed to `dispatch_ip` while D1 is still being sent (this is what the
+    // ingress reply path and `socket_egress` do)
+    // @harness props=C12 cfg=KI4 tier=q to=900 mem=6 unwind=12 opts=nomem covers=2 funcs=InterfaceInner::dispatch_ip;InterfaceInner::dispatch_ipv4_frag bounds=MTU_44;_D1_=_UDP_41_bytes_(3_fragments);_D2_=_UDP_17_bytes_(2_fragments);_both_symbolic;_call_sequence_dispatch_ip(D1),dispatch_ip(D2),dispatch_ipv4_frag,dispatch_ipv4_frag
+    #[kani::proof]
+    pub(crate) fn ipv4_frag_busy_dispatch() {
+        ip_iface!(dev, iface, 44, ChecksumCapabilities::ignored());
+        let d1: [u8; D1L] = kani::any();
+        let d2: [u8; D2L] = kani::any();
+        let mut s0 = TxState::<48>::new();
+        let mut s1 = TxState::<48>::new();
+        let mut s2 = TxState::<48>::new();
+        let mut s3 = TxState::<48>::new();
+        let r1 = iface.inner.dispatch_ip(CapTx { st: &mut s0 }, PacketMeta::default(), d1_packet(&d1), &mut iface.fragmenter);
+        assert!(r1.is_ok() && s0.frames == 1 && s0.len0 == 44, "prop:c12_tx_first_fragment_dispatched");
+        assert!(!iface.fragmenter.finished(), "prop:c12_tx_unfinished_while_fragments_remain");
+        let id1 = hdr(&s0.buf0[..IPH]).ident;
+        // the second datagram arrives now
+        let ip2 = Ipv4Repr { src_addr: LOCAL, dst_addr: REMOTE, next_header: IpProtocol::Udp, payload_len: 8 + D2L, hop_limit: 64 };
+        let p2 = Packet::new_ipv4(ip2, IpPayload::Udp(UdpRepr { src_port: 1001, dst_port: 2001 }, &d2[..]));
+        let r2 = iface.inner.dispatch_ip(CapTx { st: &mut s1 }, PacketMeta::default(), p2, &mut iface.fragmenter);
+        // the egress passes that follow
+        iface.inner.dispatch_ipv4_frag(CapTx { st: &mut s2 }, &mut iface.fragmenter);
+        let fin_after_one = iface.fragmenter.finished();
+        if !fin_after_one {
+            iface.inner.dispatch_ipv4_frag(CapTx { st: &mut s3 }, &mut iface.fragmenter);
+        }
+        dump_frame("dispatch_ip(D1)        ", s0.frames, 0, &s0.buf0, s0.len0);
+        dump_frame("dispatch_ip(D2)        ", s1.frames, 0, &s1.buf0, s1.len0);
+        dump_frame("dispatch_ipv4_frag #1  ", s2.frames, 0, &s2.buf0, s2.len0);
+        dump_frame("dispatch_ipv4_frag #2  ", s3.frames, 0, &s3.buf0, s3.len0);
+        crate::vdump!("d1={:?}", d1);
+        crate::vdump!("d2={:?} r2={:?}", d2, r2);
+        let k = any_lt(24);
+        // D1 continues exactly where it was: second and third fragment, D1's ident, D1's bytes
+        assert!(s2.frames == 1 && is_d1_frag(&s2.buf0, s2.len0, 1, id1, &d1, k), "prop:c12_busy_next_fragment_is_first_datagrams_second");
+        assert!(s3.frames == 1 && is_d1_frag(&s3.buf0, s3.len0, 2, id1, &d1, k), "prop:c12_busy_first_datagram_transmitted_completely");
+        // D2 was refused, deferred or dropped as a whole: none of it went out while D1 owned the fragmenter
+        assert!(s1.frames == 0, "prop:c12_busy_second_datagram_not_started_into_busy_fragmenter");
+        kani::cover!(s2.frames == 1 && s3.frames == 1, "two further fragments emitted after the second dispatch");
+        kani::cover!(r2.is_ok(), "second dispatch returned Ok");
+    }
+
+    // (b) the same through the public egress path: a UDP socket holds the oversized D2 while D1 (first fragment
+    // already sent by `dispatch_ip`, as an ingress-triggered reply or an earlier socket of the pass does) still
+    // has two fragments to go; three `poll_egress` passes on devices that accept every frame.
+    // @harness props=C12 cfg=KI4 tier=q to=1200 mem=9 unwind=12 opts=nomem covers=2 funcs=Interface::poll_egress;Interface::ipv4_egress;Interface::socket_egress;udp::Socket::dispatch;InterfaceInner::dispatch_ip;InterfaceInner::dispatch_ipv4_frag bounds=MTU_44;_D1_=_UDP_41_bytes_(3_fragments,_first_sent_by_dispatch_ip);_D2_=_UDP_17_bytes_(2_fragments)_queued_in_one_UDP_socket;_3_poll_egress_passes;_device_always_accepts
+    #[kani::proof]
+    pub(crate) fn ipv4_frag_busy_socket() {
+        let mut da = CapDev::<48>::new(Medium::Ip, 44, ChecksumCapabilities::ignored());
+        let mut db = CapDev::<48>::new(Medium::Ip, 44, ChecksumCapabilities::ignored());
+        let mut dc = CapDev::<48>::new(Medium::Ip, 44, ChecksumCapabilities::ignored());
+        let mut iface = Interface::new(Config::new(HardwareAddress::Ip), &mut da, Instant::from_millis(0));
+        iface.update_ip_addrs(|a| {
+            a.push(IpCidr::new(IpAddress::Ipv4(LOCAL), 24)).unwrap();
+        });
+        let d1: [u8; D1L] = kani::any();
+        let d2: [u8; D2L] = kani::any();
+        let mut rxm = [sudp::PacketMetadata::EMPTY; 1];
+        let mut rxp = [0u8; 8];
+        let mut txm = [sudp::PacketMetadata::EMPTY; 1];
+        let mut txp = [0u8; 24];
+        let mut sock = sudp::Socket::new(
+            sudp::PacketBuffer::new(&mut rxm[..], &mut rxp[..]),
+            sudp::PacketBuffer::new(&mut txm[..], &mut txp[..]),
+        );
+        sock.bind(1001).unwrap();
+        sock.send_slice(&d2[..], IpEndpoint::new(IpAddress::Ipv4(REMOTE), 2001)).unwrap();
+        let mut storage = [SocketStorage::EMPTY; 1];
+        let mut sockets = SocketSet::new(&mut storage[..]);
+        let h = sockets.add(sock);
+
+        let mut s0 = TxState::<48>::new();
+        let r1 = iface.inner.dispatch_ip(CapTx { st: &mut s0 }, PacketMeta::default(), d1_packet(&d1), &mut iface.fragmenter);
+        assert!(r1.is_ok() && s0.frames == 1 && s0.len0 == 44, "prop:c12_tx_first_fragment_dispatched");
+        let id1 = hdr(&s0.buf0[..IPH]).ident;
+        let now = Instant::from_millis(0);
+        iface.poll_egress(now, &mut da, &mut sockets);
+        let q1 = sockets.get::<sudp::Socket>(h).send_queue();
+        iface.poll_egress(now, &mut db, &mut sockets);
+        let q2 = sockets.get::<sudp::Socket>(h).send_queue();
+        iface.poll_egress(now, &mut dc, &mut sockets);
+        let q3 = sockets.get::<sudp::Socket>(h).send_queue();
+
+        dump_frame("dispatch_ip(D1)      ", s0.frames, 0, &s0.buf0, s0.len0);
+        dump_frame("poll_egress #1 frame0", da.tx.frames, 0, &da.tx.buf0, da.tx.len0);
+        dump_frame("poll_egress #1 frame1", da.tx.frames, 1, &da.tx.buf1, da.tx.len1);
+        dump_frame("poll_egress #2 frame0", db.tx.frames, 0, &db.tx.buf0, db.tx.len0);
+        dump_frame("poll_egress #2 frame1", db.tx.frames, 1, &db.tx.buf1, db.tx.len1);
+        dump_frame("poll_egress #3 frame0", dc.tx.frames, 0, &dc.tx.buf0, dc.tx.len0);
+        dump_frame("poll_egress #3 frame1", dc.tx.frames, 1, &dc.tx.buf1, dc.tx.len1);
+        crate::vdump!("socket send queue after each pass: {} {} {}; frames per pass {} {} {}", q1, q2, q3, da.tx.frames, db.tx.frames, dc.tx.frames);
+        crate::vdump!("d1={:?}", d1);
+        crate::vdump!("d2={:?}", d2);
+        // capture limit of the devices (two frames per pass): a different schedule would need a wider harness
+        assert!(da.tx.frames <= 2 && db.tx.frames <= 2 && dc.tx.frames <= 2, "inv:at_most_two_frames_per_pass_captured");
+        let k = any_lt(24);
+        // the fragmenter goes first in every pass: the first frame after D1's first fragment is D1's second
+        assert!(da.tx.frames >= 1 && is_d1_frag(&da.tx.buf0, da.tx.len0, 1, id1, &d1, k), "prop:c12_busy_next_fragment_is_first_datagrams_second");
+        // D1's third (last) fragment is transmitted, unmodified, in one of the passes
+        let d1_done = (da.tx.frames >= 2 && is_d1_frag(&da.tx.buf1, da.tx.len1, 2, id1, &d1, k))
+            || (db.tx.frames >= 1 && is_d1_frag(&db.tx.buf0, db.tx.len0, 2, id1, &d1, k))
+            || (db.tx.frames >= 2 && is_d1_frag(&db.tx.buf1, db.tx.len1, 2, id1, &d1, k))
+            || (dc.tx.frames >= 1 && is_d1_frag(&dc.tx.buf0, dc.tx.len0, 2, id1, &d1, k));
+        assert!(d1_done, "prop:c12_busy_first_datagram_transmitted_completely");
+        // D2 is still queued in its socket, or both of its fragments went out
+        let d2_first = (da.tx.frames >= 2 && is_d2_frag(&da.tx.buf1, da.tx.len1, 0, id1, &d2, k))
+            || (db.tx.frames >= 1 && is_d2_frag(&db.tx.buf0, db.tx.len0, 0, id1, &d2, k))
+            || (db.tx.frames >= 2 && is_d2_frag(&db.tx.buf1, db.tx.len1, 0, id1, &d2, k))
+            || (dc.tx.frames >= 1 && is_d2_frag(&dc.tx.buf0, dc.tx.len0, 0, id1, &d2, k))
+            || (dc.tx.frames >= 2 && is_d2_frag(&dc.tx.buf1, dc.tx.len1, 0, id1, &d2, k));
+        let d2_second = (db.tx.frames >= 1 && is_d2_frag(&db.tx.buf0, db.tx.len0, 1, id1, &d2, k))
+            || (db.tx.frames >= 2 && is_d2_frag(&db.tx.buf1, db.tx.len1, 1, id1, &d2, k))
+            || (dc.tx.frames >= 1 && is_d2_frag(&dc.tx.buf0, dc.tx.len0, 1, id1, &d2, k))
+            || (dc.tx.frames >= 2 && is_d2_frag(&dc.tx.buf1, dc.tx.len1, 1, id1, &d2, k));
+        if q3 == 0 {
+            // (a pass that started D2 last leaves its second fragment to the next pass: not a loss)
+            assert!(d2_first && (d2_second || !iface.fragmenter.finished()), "prop:c12_busy_second_datagram_deferred_or_transmitted_completely");
+        } else {
+            assert!(q3 == D2L && !d2_first && !d2_second, "prop:c12_busy_second_datagram_deferred_or_transmitted_completely");
+        }
+        kani::cover!(da.tx.frames + db.tx.frames + dc.tx.frames >= 3, "three or more frames in three passes");
+        kani::cover!(q3 == 0, "socket queue drained");
+    }
+
+    // ------------------------------------------------------------------ reassembly through the real ingress path
+    // Ghost datagram: protocol 253, 20 symbolic payload bytes, fragments [0,8) [8,16) [16,20), any ident; frames are
+    // RFC 791 byte templates written here.  4 symbolic picks: every order and duplication within the bound.
+    fn frag_frame(ident: u16, off: usize, mf: bool, g: &[u8; 20], n: usize) -> [u8; 28] {
+        let mut f = [0u8; 28];
+        f[0] = 0x45;
+        f[3] = (IPH + n) as u8;
+        f[4] = (ident >> 8) as u8;
+        f[5] = ident as u8;
+        f[6] = if mf { 0x20 } else { 0 };
+        f[7] = (off / 8) as u8;
+        f[8] = 64;
+        f[9] = 253;
+        f[12..16].copy_from_slice(&REMOTE.octets());
+        f[16..20].copy_from_slice(&LOCAL.octets());
+        let mut i = 0;
+        while i < 8 {
+            if i < n {
+                f[IPH + i] = g[off + i];
+            }
+            i += 1;
+        }
+        f
+    }
+
+    fn runs3(m: u8) -> usize {
+        // maximal runs of present 8-byte blocks = data ranges the assembler must track
+        (m & 1 != 0) as usize + ((m & 2 != 0) && (m & 1 == 0)) as usize + ((m & 4 != 0) && (m & 2 == 0)) as usize
+    }
+
+    // @harness props=C12 cfg=KI4 tier=q to=1200 mem=8 unwind=12 opts=nomem,fs300 covers=3 funcs=InterfaceInner::process_ip;InterfaceInner::process_ipv4;PacketAssemblerSet::get;PacketAssembler::set_total_size;PacketAssembler::add;PacketAssembler::assemble;raw::Socket::process bounds=datagram_of_20_payload_bytes_in_3_fragments_(8+8+4);_4_symbolic_picks_(every_order_and_duplication);_symbolic_ident_and_bytes;_raw_socket_as_receiver;_no_expiry
+    #[kani::proof]
+    pub(crate) fn ipv4_reasm_process() {
+        ip_iface!(dev, iface, 1500, ChecksumCapabilities::ignored());
+        let g: [u8; 20] = kani::any();
+        let ident: u16 = kani::any();
+        let f0 = frag_frame(ident, 0, true, &g, 8);
+        let f1 = frag_frame(ident, 8, true, &g, 8);
+        let f2 = frag_frame(ident, 16, false, &g, 4);
+        let mut rxm = [sraw::PacketMetadata::EMPTY; 2];
+        let mut rxp = [0u8; 48];
+        let mut txm = [sraw::PacketMetadata::EMPTY; 1];
+        let mut txp = [0u8; 1];
+        let sock = sraw::Socket::new(
+            Some(IpVersion::Ipv4),
+            Some(IpProtocol::Unknown(253)),
+            sraw::PacketBuffer::new(&mut rxm[..], &mut rxp[..]),
+            sraw::PacketBuffer::new(&mut txm[..], &mut txp[..]),
+        );
+        let mut storage = [SocketStorage::EMPTY; 1];
+        let mut sockets = SocketSet::new(&mut storage[..]);
+        let h = sockets.add(sock);
+        let mut mask = 0u8;
+        let mut over = false;
+        let mut delivered = 0usize;
+        let mut ooo = false;
+        let mut dup = false;
+
+        macro_rules! step {
+            () => {{
+                let pick: u8 = kani::any();
+                kani::assume(pick < 3);
+                crate::vdump!("pick {}", pick);
+                let bit = 1u8 << pick;
+                dup = dup || mask & bit != 0;
+                ooo = ooo || (mask | bit) & (bit - 1) != bit - 1;
+                mask |= bit;
+                over = over || runs3(mask) > crate::config::ASSEMBLER_MAX_SEGMENT_COUNT;
+                let reply_none = match pick {
+                    0 => iface.inner.process_ip(&mut sockets, PacketMeta::default(), &f0[..28], &mut iface.fragments).is_none(),
+                    1 => iface.inner.process_ip(&mut sockets, PacketMeta::default(), &f1[..28], &mut iface.fragments).is_none(),
+                    _ => iface.inner.process_ip(&mut sockets, PacketMeta::default(), &f2[..24], &mut iface.fragments).is_none(),
+                };
+                assert!(reply_none, "prop:c12_reasm_fragment_causes_no_reply");
+                match sockets.get_mut::<sraw::Socket>(h).recv() {
+                    Ok(b) => {
+                        assert!(mask == 7, "prop:c12_reasm_delivers_only_when_every_byte_present");
+                        assert!(b.len() == IPH + 20, "prop:c12_reasm_delivered_length_exact");
+                        let hh = hdr(&b[..IPH]);
+                        assert!(hh.total == IPH + 20 && !hh.mf && hh.off == 0 && hh.proto == 253 && hh.src == REMOTE.octets() && hh.dst == LOCAL.octets(),
+                                "prop:c12_reasm_delivered_header_describes_whole_datagram");
+                        let k = any_lt(20);
+                        assert!(b[IPH + k] == g[k], "prop:c12_reasm_delivered_bytes_equal_datagram");
+                        mask = 0;
+                        delivered += 1;
+                    }
+                    Err(_) => {
+                        assert!(mask != 7 || over, "prop:c12_reasm_delivers_when_gaps_trackable");
+                    }
+                }
+            }};
+        }
+        step!();
+        step!();
+        step!();
+        step!();
+        kani::cover!(delivered == 1 && ooo, "datagram delivered after out-of-order arrival");
+        kani::cover!(delivered == 1 && dup, "datagram delivered although a fragment was duplicated");
+        kani::cover!(delivered == 0 && mask != 0, "incomplete datagram: nothing delivered");
     }
 
     // @harness props=C12 kind=mustfail cfg=KI4 tier=q to=600 mem=6 unwind=12 opts=nomem
